@@ -19,8 +19,8 @@ VO = {"C04": ["props/C04.vo"] + T.VO_BASE, "C05": ["props/C05.vo"] + T.VO_BASE,
 PARAMS = {
     # zones beyond the tricky list, synthetic zones, max transitions probed per zone,
     # random instants per zone, thinning of wall intervals
-    "quick": {"nz": 45, "nsynth": 120, "max_trans": 40, "nrand": 40, "thin": 8},
-    "thorough": {"nz": None, "nsynth": 1200, "max_trans": None, "nrand": 150, "thin": 16},
+    "quick": {"nz": 90, "nsynth": 240, "max_trans": 50, "nrand": 40, "thin": 8},
+    "thorough": {"nz": None, "nsynth": 1200, "max_trans": None, "nrand": 150, "thin": 12},
 }
 _ORACLE = None
 
@@ -391,6 +391,45 @@ def other_stream(cid, tier):
     return n, bad, per
 
 
+def generic_layer_stream(o, tier):
+    """_tzinfo.fromutc/_fold_status (generic layer of tz/_common.py) vs the extracted model
+    g_fromutc (entry 9).  The zone's own utcoffset()/dst() are supplied to the model on demand as a
+    finite table; only classes that do not override fromutc / is_ambiguous qualify (iCalendar zones)."""
+    from dateutil import tz
+    from dateutil.tz import _common
+    r = C.rng("generic")
+    n, bad = 0, []
+    for zn, z in other_zones():
+        if type(z).fromutc is not _common._tzinfo.fromutc or type(z).is_ambiguous is not _common._tzinfo.is_ambiguous:
+            continue
+        for y in ((2000, 2011) if tier == "quick" else tuple(range(1996, 2030, 3))):
+            lo = int((D.datetime(y, 1, 1) - T.EPOCH).total_seconds()) + 40 * 86400
+            hi = lo + 240 * 86400
+            us = set(r.randint(lo, hi) for _ in range(10))
+            for (t, po, vo) in zone_changes(z, lo, hi):
+                dd = vo - po
+                for k in (0, 1, -1, dd, -dd, dd - 1, -dd - 1, -dd + 1, 3600, -3600, 1800, 7200, -7200):
+                    us.add(t + k)
+            for u in sorted(us):
+                n += 1
+                dt = (T.EPOCH + D.timedelta(seconds=u)).replace(tzinfo=z)
+                loc = T.guard(lambda: z.fromutc(dt))
+                im = (T.naive_s(loc)[0], loc.fold) if T.is_ok(loc) else loc
+                tbl = []
+                mo = None
+                for _ in range(6):
+                    rep = o.call(9, [u] + [x for q in tbl for x in q])
+                    if rep[0] == 0:
+                        mo = (rep[1], rep[2])
+                        break
+                    x, f = rep[1], rep[2]
+                    q = (T.EPOCH + D.timedelta(seconds=x)).replace(tzinfo=z, fold=f)
+                    tbl.append((x, f, T.td_s(q.utcoffset()), T.td_s(q.dst())))
+                if im != mo:
+                    bad.append({"zone": zn, "u": u, "impl": im, "model": mo, "table": tbl})
+    return n, bad
+
+
 # ------------------------------------------------------------------------------ malformed streams (C06)
 def malformed_stream(o, zones, tier):
     """Truncations, bad magic, type index out of range, negative counts: exception class of
@@ -495,6 +534,7 @@ def main(cid):
     else:
         props = {"obligations": 1, "discharged": 0, "theorems": [], "assumptions": {},
                  "cmd": "coqc props/%s.v" % cid, "log": build_err.log, "ok": False}
+    t_built = time.time()
     if not os.path.exists(os.path.join(C.BIN, "oracle_" + T.AREA)):
         verdict.violation({"kind": "model does not build; no oracle", "input": None,
                            "log_tail": props["log"][-3000:]}, concrete=False)
@@ -531,6 +571,7 @@ def main(cid):
     with ctx.Pool(min(T.JOBS, 16)) as pool:
         results = pool.map(work, tasks, chunksize=1)
     o = oracle()
+    t_zones = time.time()
 
     # ---- grading
     evals = 0
@@ -580,7 +621,7 @@ def main(cid):
             hist["utc_instants"] += ut["n"]
             hist["folds_observed"] += ut["folds"]
             hist["instants_in_data_range"] += ut["in_range"]
-            nontrivial += ut["n"]
+            nontrivial += ut["nontrivial"]
             samples += ut["samples"][:1]
             if cid == "C04":
                 conc = [("property: " + x["why"], x) for x in ut["prop_fail"]] + \
@@ -618,7 +659,7 @@ def main(cid):
         if "wall" in res:
             wl = res["wall"]
             evals += wl["n"]
-            nontrivial += wl["n"]
+            nontrivial += wl["nontrivial"]
             hist["wall_queries"] += wl["n"]
             for k in ("0", "1", "2", "more"):
                 hist["preimage_count"][k] += wl["count"].get(k, 0)
@@ -663,6 +704,13 @@ def main(cid):
                                                    "only (differential); theorems belong to C08/C17"}
         for x in obad[:2]:
             verdict.violation({"kind": "property (other zone class): " + x["why"], "input": x})
+        ng, gbad = generic_layer_stream(o, tier)
+        evals += ng
+        cov_extra["generic_layer_cases"] = ng
+        if gbad and not obad:
+            n_model_diff += len(gbad)
+            verdict.violation({"kind": "correspondence: generic _tzinfo.fromutc differs from the model g_fromutc",
+                               "input": gbad[0], "count": len(gbad)}, concrete=False)
     if cid == "C06":
         nm, mbad, mh = malformed_stream(o, zones + [(n, b) for n, b, _ in synth[:10]], tier)
         evals += nm
@@ -684,6 +732,32 @@ def main(cid):
                     verdict.violation({"kind": "zone equality differs between implementation and model",
                                        "input": {"zone": n1, "other": n2}, "impl": e_impl, "model": e_model},
                                       concrete=False)
+        # equality must see the isstd / isgmt indicators (and hence the leap-second skip before them)
+        nflip = 0
+        for (n1, b1, raw) in synth:
+            if not raw["isstd"] and not raw["isgmt"]:
+                continue
+            if nflip >= (40 if tier == "quick" else 400):
+                break
+            nflip += 1
+            raw2 = dict(raw)
+            key = "isstd" if raw["isstd"] else "isgmt"
+            fl = list(raw[key])
+            fl[-1] = 1 - fl[-1]
+            raw2[key] = fl
+            b1, b2 = T.py_render(raw), T.py_render(raw2)
+            za, zb = T.load_impl(b1), T.load_impl(b2)
+            if not (T.is_ok(za) and T.is_ok(zb)):
+                continue
+            evals += 1
+            e_impl = int(za == zb)
+            e_model = o.call(8, T.bytes_args(b1) + T.bytes_args(b2))
+            if e_model[0] != 0 or e_impl != e_model[1]:
+                verdict.violation({"kind": "zone equality differs between implementation and model "
+                                           "(isstd/isgmt indicator flipped)",
+                                   "input": {"zone": n1, "bytes_hex": b1.hex(), "other_hex": b2.hex()},
+                                   "impl": e_impl, "model": e_model}, concrete=False)
+        cov_extra["equality_indicator_flips"] = nflip
         cov_extra["equality_pairs"] = len(sub) ** 2
         cov_extra["archive_metadata_ok"] = arch.metadata == {"tzversion": "verif"}
 
@@ -695,10 +769,13 @@ def main(cid):
     cov = {
         "evaluations": evals,
         "distinct_nontrivial": nontrivial,
-        "rule": "one evaluation = one (zone, UTC instant) or (zone, wall time, fold) or (zone, route, instant) "
-                "compared between implementation, extracted model and extracted spec; instants/wall times are "
-                "de-duplicated per zone (sets), zones are distinct files; all of them lie next to a transition "
-                "or are random in the zone's range, none is a trivial repeat",
+        "rule": "one evaluation = one (zone, UTC instant) or (zone, wall time, fold) or (zone, route, instant) or "
+                "fixed/other-class case, compared between implementation, extracted model and extracted spec; "
+                "instants / wall times are de-duplicated per zone (sets) and zones are distinct files, so every "
+                "(zone, instant) pair is distinct; a pair is counted non-trivial when the instant lies within 2 h "
+                "of one of the zone's UTC transitions, resp. the wall time is imaginary, ambiguous or within 2 h "
+                "of a wall-clock transition (measured per case by bisection in the zone's transition list); "
+                "fixed zones, other zone classes, routes and malformed streams are not counted as non-trivial",
         "samples": samples[:10],
         "input_distribution": hist,
         "model_vs_impl_disagreements": n_model_diff,
@@ -711,7 +788,20 @@ def main(cid):
         "gaps_outside_isolation_hypothesis_samples": not_isolated[:10],
         "known_findings_hit": verdict.known_hits,
         "tier_parameters": p,
+        "phase_seconds": {"build_and_props_incl_lock_wait": round(t_built - t0, 1),
+                          "zones": round(t_zones - t_built, 1), "rest": round(time.time() - t_zones, 1)},
         "partial_theorems": [t for t in props["theorems"] if t.endswith("_partial")],
+        "refuted_theorems": [t for t in props["theorems"] if t.endswith("_refuted")],
+        "theorem_guards": {
+            "tzfile theorems": "good d = true (executable decoder invariant, proved for every decoded file with >= 1 "
+                               "type: C06_decoder_invariant; also evaluated on every zone by this run) and "
+                               "wf_zone (zone_of d) = true (executable; evaluated on every zone by this run, zones "
+                               "outside it are listed under zones_outside_wf_zone)",
+            "C05_resolve_imaginary_gap_width": "none beyond good/wf_zone (after fix 7f58098; before it the +-24 h probe "
+                                               "forced the hypothesis `isolated`, still reported per gap as "
+                                               "gaps_outside_isolation_hypothesis for information)",
+            "C06 data theorems": "wf_data r = true; instants before the last transition of the data",
+            "C04_generic_roundtrip": "five explicit obligations on the zone's utcoffset/dst (to be met by tzical/tzlocal: C17/C08)"},
         "differential_only": ["tzstr/tzrange/tzical/tzlocal round trips and pre-image counts",
                               "tarfile / pickle / copy / os.path glue (C06 routes)",
                               "microsecond pass-through", "malformed-stream exception classes"],
